@@ -17,6 +17,25 @@ func positions(t *Table) map[string]int {
 	return m
 }
 
+// classifyFor: with an inspected desired state unnamed foreign keys carry numeric symbols, not empty ones,
+// so the class two-unnamed-fks (empty symbols) does not apply
+func classifyFor(a, b Schema, inspected bool) string {
+	c := classify(a, b)
+	if !inspected {
+		return c
+	}
+	var keep []string
+	for _, x := range strings.Split(c, "+") {
+		if x != "two-unnamed-fks" {
+			keep = append(keep, x)
+		}
+	}
+	if len(keep) == 0 {
+		return "none"
+	}
+	return strings.Join(keep, "+")
+}
+
 func classify(a, b Schema) string {
 	set := map[string]bool{}
 	for ti := range b.Tables {
@@ -78,6 +97,14 @@ func classify(a, b Schema) string {
 			for _, k2 := range bt.Checks {
 				if mayWrap(k1.Expr) == mayWrap(k2.Expr) && k1.Name != k2.Name && (k1.Name == "" || k2.Name == "") {
 					set["check-name-change"] = true
+				}
+			}
+		}
+		for _, f1 := range t.FKs {
+			for _, f2 := range bt.FKs {
+				if strings.Join(f1.Cols, ",") == strings.Join(f2.Cols, ",") && f1.RefTable == f2.RefTable &&
+					strings.Join(f1.RefCols, ",") == strings.Join(f2.RefCols, ",") && f1.Symbol != f2.Symbol {
+					set["fk-name-change"] = true
 				}
 			}
 		}
@@ -220,6 +247,20 @@ func (g *G) witness(class string) (Schema, Schema, bool) {
 				t.AutoIncCols = nil
 				ok = true
 			}
+		case "fk-name-change":
+			at := a.table(t.Name)
+			if len(at.FKs) > 0 && at.FKs[0].Symbol != "" {
+				unnamed := 0
+				for _, f := range t.FKs {
+					if f.Symbol == "" {
+						unnamed++
+					}
+				}
+				if unnamed == 0 {
+					t.FKs[0].Symbol = ""
+					ok = true
+				}
+			}
 		case "check-name-change":
 			at := a.table(t.Name)
 			for _, c := range at.Cols {
@@ -291,4 +332,4 @@ func (g *G) witness(class string) (Schema, Schema, bool) {
 	return Schema{}, Schema{}, false
 }
 
-var knownClasses = []string{"check-name-change", "index-name-moves", "new-table-clash", "autoinc-change", "dup-check-expr", "two-unnamed-fks", "gen-col-name-prefix", "pk-order", "pk-desc", "raw-default-parens", "check-parens", "drop-inline-unique"}
+var knownClasses = []string{"fk-name-change", "check-name-change", "index-name-moves", "new-table-clash", "autoinc-change", "dup-check-expr", "two-unnamed-fks", "gen-col-name-prefix", "pk-order", "pk-desc", "raw-default-parens", "check-parens", "drop-inline-unique"}
